@@ -29,9 +29,10 @@ impl<T: Qcow2IoOps> Qcow2Dev<T> {
     ///
     /// Already-unallocated and zero-flagged clusters are no-ops.
     ///
-    /// As with `write_at`, dirty meta (L2 slice + refcount block) is
-    /// left in cache; call `flush_meta()` (or rely on the next eviction)
-    /// to land the changes on disk.
+    /// The cleared mappings are flushed before the clusters are released
+    /// (soft-update order); the refcount changes themselves stay dirty in
+    /// cache like after `write_at`: call `flush_meta()` (or rely on the next
+    /// eviction) to land them on disk.
     pub async fn discard(&self, virtual_offset: u64, len: u64) -> Qcow2Result<()> {
         let info = &self.info;
         let cluster_size = info.cluster_size() as u64;
@@ -68,10 +69,43 @@ impl<T: Qcow2IoOps> Qcow2Dev<T> {
             stop
         );
 
+        // First clear the mappings, then release what they referenced.
+        let mut released: Vec<(u64, usize)> = Vec::new();
         let mut guest = start;
         while guest < stop {
-            self.__discard_one_cluster(guest).await?;
+            if let Some(allocation) = self.__discard_one_cluster(guest).await? {
+                released.push(allocation);
+            }
             guest += cluster_size;
+        }
+
+        if released.is_empty() {
+            return Ok(());
+        }
+
+        // Soft-update order: a cluster may be released (its refcount decreased
+        // and the cluster handed out again) only once the mapping that pointed
+        // to it is gone from the disk. Otherwise a crash leaves a mapping to a
+        // cluster whose refcount is 0 or that already holds someone else's
+        // data. Same rule as the COW path in do_write_cow().
+        self.flush_meta().await?;
+        self.call_fsync(0, usize::MAX, 0).await?;
+
+        for (host_cluster, host_count) in released {
+            // Refcount-release the host cluster(s). For ordinary (non-
+            // compressed) entries this is always a single cluster, but we
+            // pass `host_count` through to mirror the existing free_clusters
+            // call sites in the COW path.
+            self.free_clusters(host_cluster, host_count).await?;
+
+            // Punch the host file so the OS reclaims the bytes. The
+            // FALLOCATE_ZERO_RANGE flag asks for both hole-punch + reads-as-
+            // zero semantics. On filesystems that don't support either,
+            // call_fallocate falls back to writing zeros (see `call_fallocate`
+            // implementation), so the LBPRZ-equivalent contract still holds.
+            let punch_len = host_count * info.cluster_size();
+            self.call_fallocate(host_cluster, punch_len, Qcow2OpsFlags::FALLOCATE_ZERO_RANGE)
+                .await?;
         }
 
         Ok(())
@@ -79,12 +113,12 @@ impl<T: Qcow2IoOps> Qcow2Dev<T> {
 
     /// Discard a single guest cluster at `guest_offset` (cluster-aligned).
     ///
-    /// Returns `Ok(())` for every non-fatal case: already-unallocated,
-    /// zero-flagged, compressed, or L2-slice-absent ranges all silently
-    /// no-op. The only errors are propagated from `free_clusters` /
-    /// `call_fallocate` failures (genuine IO errors on the host file
-    /// or refcount metadata).
-    async fn __discard_one_cluster(&self, guest_offset: u64) -> Qcow2Result<()> {
+    /// Clears the mapping and returns the host allocation it referenced, to
+    /// be released by the caller once the cleared mapping is on disk.
+    /// Returns `Ok(None)` for every case with nothing to release:
+    /// already-unallocated, zero-flagged, compressed, or L2-slice-absent
+    /// ranges all silently no-op.
+    async fn __discard_one_cluster(&self, guest_offset: u64) -> Qcow2Result<Option<(u64, usize)>> {
         let info = &self.info;
         debug_assert_eq!(info.in_cluster_offset(guest_offset), 0);
         let split = SplitGuestOffset(guest_offset);
@@ -92,7 +126,7 @@ impl<T: Qcow2IoOps> Qcow2Dev<T> {
         // Fast path: no L2 slice exists for this region; nothing to free.
         let l1_e = self.get_l1_entry(&split).await?;
         if l1_e.is_zero() {
-            return Ok(());
+            return Ok(None);
         }
 
         let version = self.header.read().await.version();
@@ -104,13 +138,13 @@ impl<T: Qcow2IoOps> Qcow2Dev<T> {
         // Compressed clusters share host sectors; punching could corrupt
         // a neighbor. Leave them mapped.
         if entry.is_compressed() {
-            return Ok(());
+            return Ok(None);
         }
 
         let allocation = entry.allocation(info.cluster_bits() as u32);
         let Some((host_cluster, host_count)) = allocation else {
             // Unallocated or zero-flagged-only entry — nothing to release.
-            return Ok(());
+            return Ok(None);
         };
 
         // Clear the L2 entry. Without a backing image the all-zero entry
@@ -125,30 +159,17 @@ impl<T: Qcow2IoOps> Qcow2Dev<T> {
             L2Entry(1)
         } else {
             let punch_len = host_count * info.cluster_size();
-            return self
-                .call_fallocate(host_cluster, punch_len, Qcow2OpsFlags::FALLOCATE_ZERO_RANGE)
-                .await;
+            self.call_fallocate(host_cluster, punch_len, Qcow2OpsFlags::FALLOCATE_ZERO_RANGE)
+                .await?;
+            return Ok(None);
         };
         l2_table.set(idx, cleared);
         l2_handle.set_dirty(true);
         self.mark_need_flush(true);
         drop(l2_table);
 
-        // Refcount-release the host cluster(s). For ordinary (non-
-        // compressed) entries this is always a single cluster, but we
-        // pass `host_count` through to mirror the existing free_clusters
-        // call sites in the COW path.
-        self.free_clusters(host_cluster, host_count).await?;
-
-        // Punch the host file so the OS reclaims the bytes. The
-        // FALLOCATE_ZERO_RANGE flag asks for both hole-punch + reads-as-
-        // zero semantics. On filesystems that don't support either,
-        // call_fallocate falls back to writing zeros (see `call_fallocate`
-        // implementation), so the LBPRZ-equivalent contract still holds.
-        let punch_len = host_count * info.cluster_size();
-        self.call_fallocate(host_cluster, punch_len, Qcow2OpsFlags::FALLOCATE_ZERO_RANGE)
-            .await?;
-
-        Ok(())
+        // the caller releases the host cluster(s) once the cleared mapping
+        // is on disk
+        Ok(Some((host_cluster, host_count)))
     }
 }
